@@ -153,6 +153,9 @@ class Gen:
             return ["dellist", parts]
         if kind in ("vis", "fold"):
             return [kind, self.chain(), rnd.random() < (0.35 if kind == "vis" else 0.65)]
+        if kind == "title":
+            # card.select(...).title = t : the heading changes, the key under which the section is stored does not
+            return ["title", self.chain(), self.name() if rnd.random() < 0.8 else title(rnd)]
         raise KeyError(kind)
 
     def sequence(self):
@@ -232,6 +235,8 @@ class Emitter:
             return f"OSetVisible {self.lst((self.pstr(x) for x in op[1]), 'pstr')} {b(op[2])}"
         if k == "fold":
             return f"OSetFolded {self.lst((self.pstr(x) for x in op[1]), 'pstr')} {b(op[2])}"
+        if k == "title":
+            return f"OSetTitle {self.lst((self.pstr(x) for x in op[1]), 'pstr')} {self.pstr(op[2])}"
         raise KeyError(k)
 
     def oracle(self, entries):
